@@ -475,7 +475,7 @@ def imp (fn : String) (a : List String) : Option String := do
   | "imp.grid", [style, g] =>
     let rows ← decGrid? g
     let out := if style == "xlsx" then Importer.xlsxGrid rows else Importer.csvGrid (style == "csv-all") rows
-    some ("rows " ++ encGrid out)
+    some (s!"rows {encGrid out} max {out.length}x{Spec.Grid.width out}")
   | "imp.csvtext", [t] =>
     some (match CSV.readRows (← decStr? t) with
       | some rows => "rows " ++ encGrid rows
@@ -483,7 +483,13 @@ def imp (fn : String) (a : List String) : Option String := do
   | "o.imp.grid", [_style, g, obs] =>
     let rows ← decGrid? g
     if !obs.startsWith "rows " then some "FAILS" else
-    let got ← decGrid? (obs.drop 5).toString
+    let (gridS, maxS) ← (match (obs.drop 5).toString.splitOn " max " with
+      | [g, m] => some (g, m) | _ => none)
+    let got ← decGrid? gridS
+    let (mr, mc) ← (match maxS.splitOn "x" with
+      | [a, b] => do pure ((← decNat? a), (← decNat? b)) | _ => none)
+    -- the declared extent must reach every row and every cell handed on
+    if mr < got.length || mc < Spec.Grid.width got then some "FAILS" else
     some (if Spec.Grid.holds rows got then "holds" else "FAILS")
   | _, _ => none
 
